@@ -50,7 +50,8 @@ def main():
     na = []
     for p in props:
         pid = p['id']
-        if pid in CLAIMS and os.path.exists(os.path.join(V, 'tools', 'props', pid.lower() + '.py')):
+        if pid in CLAIMS and os.path.exists(os.path.join(V, 'tools', 'props', pid.lower() + '.py')) \
+                and os.path.exists(os.path.join(V, 'lean', 'CopVerif', 'Props', pid + '.lean')):
             c = CLAIMS[pid]
             checks.append({
                 'property_id': pid,
